@@ -35,7 +35,7 @@ def requirements(tier):
     kinds_b = ["chunk_nonpositive", "empty_tensors", "duplicate_tensor", "input_non_leaf", "input_no_requires_grad",
                "aggregator_rejects_rows", "aggregator_rejects_nonfinite"]
     kinds_m = ["chunk_nonpositive", "empty_features", "empty_losses", "non_scalar_loss", "non_scalar_loss_single_element", "more_param_groups_than_losses",
-               "fewer_param_groups_than_losses", "shared_task_overlap", "duplicate_feature", "duplicate_task_param",
+               "fewer_param_groups_than_losses", "no_param_group_for_any_loss", "shared_task_overlap", "duplicate_feature", "duplicate_task_param",
                "duplicate_shared_param", "task_param_non_leaf", "shared_param_non_leaf", "task_param_no_requires_grad",
                "shared_param_no_requires_grad"]
     req = {f"raised:backward/{k}": 10 for k in kinds_b}
@@ -60,13 +60,29 @@ def _no_grad_tensor(prng):
     return t
 
 
+def _global_state():
+    return {"grad_enabled": torch.is_grad_enabled(), "inference_mode": torch.is_inference_mode_enabled(), "default_dtype": str(torch.get_default_dtype()),
+            "deterministic": torch.are_deterministic_algorithms_enabled(), "anomaly": torch.is_anomaly_enabled()}
+
+
+def _restore_global_state(g):
+    torch.set_grad_enabled(g["grad_enabled"])
+    torch.set_default_dtype({"torch.float32": torch.float32, "torch.float64": torch.float64}.get(g["default_dtype"], torch.float32))
+
+
 def _attempt(call, leaves, ctx, kind, case_desc, extra):
     """Runs one invalid call; if it raises, inspects every leaf's .grad."""
     before = aj.snap(leaves)
+    glob = _global_state()
     try:
         call()
     except Exception as e:
         ctx.count(f"raised:{kind}")
+        after = _global_state()
+        if after != glob:
+            # "changes nothing": the process-wide switches a later, valid call depends on are part of that
+            ctx.violation("rejected_call_changed_global_state", case_desc, {"kind": kind, "before": glob, "after": after, **extra})
+            _restore_global_state(glob)
         bad = aj.grads_untouched(leaves, before)
         ctx.count("grads_inspected_after_rejection", len(leaves))
         if any(b[0] is not None for b in before):
@@ -230,6 +246,11 @@ def check_mtl(case, ctx):
     run("more_param_groups_than_losses", lambda: mtl_backward(b.losses, b.features, agg(), tasks_params=ta + [[]], shared_params=sh), b)
     b, sh, ta = fresh()
     run("fewer_param_groups_than_losses", lambda: mtl_backward(b.losses, b.features, agg(), tasks_params=ta[:-1], shared_params=sh), b)
+    # ... down to NO group at all, as an empty list / tuple / exhausted iterator (which is not "unspecified")
+    for empty in ([], (), iter([])):
+        b, sh, ta = fresh()
+        run("no_param_group_for_any_loss", lambda: mtl_backward(b.losses, b.features, agg(), tasks_params=empty, shared_params=sh), b,
+            {"container": type(empty).__name__})
     for i in range(t):
         for p in range(len(dtasks[i]) + 1):
             b, sh, ta = fresh()
